@@ -19,6 +19,7 @@ type finding struct {
 	Status   string              `json:"status"` // "open" or "fixed"
 	Harness  string              `json:"harness,omitempty"`
 	Label    string              `json:"label,omitempty"`
+	Labels   []string            `json:"labels,omitempty"` // any of these
 	Choices  map[string][]uint64 `json:"choices,omitempty"`
 	What     string              `json:"what"`
 	Commit   string              `json:"commit,omitempty"`
@@ -47,11 +48,16 @@ func (f finding) matches(prop, harness string, labels []string, choices map[stri
 	if f.Harness != "" && f.Harness != harness {
 		return false
 	}
-	if f.Label != "" {
+	if f.Label != "" || len(f.Labels) > 0 {
 		ok := false
 		for _, l := range labels {
-			if l == f.Label {
+			if l == f.Label && f.Label != "" {
 				ok = true
+			}
+			for _, fl := range f.Labels {
+				if l == fl {
+					ok = true
+				}
 			}
 		}
 		if !ok {
